@@ -625,6 +625,47 @@ fn describe(result: &Result<GenericPurl<SimShape>, SimError>) -> String {
     }
 }
 
+/// Independent renderer of the canonical string, written from the documented shape (property C03):
+/// `pkg:` type `/` [namespace `/`] name [`@` version] [`?` k=v joined by `&`] [`#` subpath]; inside a
+/// component every control character, DEL, space, non-ASCII byte, `"`, `<`, `>`, `%`, `@`, `?`, `#` -
+/// and additionally `` ` ``, `{`, `}` in namespace, name and version, `/` in the name, `+` and `&` in
+/// qualifier keys and values, `` ` `` in the subpath - is written as %XX with upper-case hex digits.
+fn render(ty: &str, snap: &PartsSnap) -> String {
+    fn put(out: &mut String, text: &str, extra: &[u8]) {
+        for b in text.bytes() {
+            let escape = b < 0x20 || b >= 0x7f || b" \"<>%@?#".contains(&b) || extra.contains(&b);
+            if escape {
+                out.push('%');
+                out.push(char::from(b"0123456789ABCDEF"[usize::from(b >> 4)]));
+                out.push(char::from(b"0123456789ABCDEF"[usize::from(b & 15)]));
+            } else {
+                out.push(char::from(b));
+            }
+        }
+    }
+    let mut out = format!("pkg:{ty}/");
+    if !snap.namespace.is_empty() {
+        put(&mut out, &snap.namespace, b"`{}");
+        out.push('/');
+    }
+    put(&mut out, &snap.name, b"`{}/");
+    if !snap.version.is_empty() {
+        out.push('@');
+        put(&mut out, &snap.version, b"`{}");
+    }
+    for (i, (k, v)) in snap.qualifiers.iter().enumerate() {
+        out.push(if i == 0 { '?' } else { '&' });
+        put(&mut out, k, b"+&");
+        out.push('=');
+        put(&mut out, v, b"+&");
+    }
+    if !snap.subpath.is_empty() {
+        out.push('#');
+        put(&mut out, &snap.subpath, b"`");
+    }
+    out
+}
+
 fn check_purl(purl: &GenericPurl<SimShape>, snap: &PartsSnap, ty: &str, ctx: &str) -> Result<(), Violation> {
     let opt = |s: &str| if s.is_empty() { None } else { Some(s.to_owned()) };
     let got = PartsSnap {
@@ -655,6 +696,15 @@ fn check_purl(purl: &GenericPurl<SimShape>, snap: &PartsSnap, ty: &str, ctx: &st
     }
     // "...and prints": differential against the library's own formatter on the type-agnostic shape.
     let printed = guarded(|| purl.to_string()).map_err(|p| violation!("C14.panic_in_display", "{ctx}: to_string() panicked: {p}"))?;
+    // "...and prints": every character the hook left is in the printed form, in the documented shape.
+    let rendered = render(ty, snap);
+    if printed != rendered {
+        return Err(violation!(
+            "C14.printed_form_differs",
+            "{ctx}: prints {printed:?}; the parts the hook left ({:?}), rendered in the documented shape, give {rendered:?}",
+            snap
+        ));
+    }
     let mut reference = GenericPurlBuilder::new(ty.to_owned(), snap.name.as_str())
         .with_namespace(snap.namespace.as_str())
         .with_version(snap.version.as_str())
